@@ -50,6 +50,18 @@ func runC16(c *core.Ctx) {
 		_, n := TokenStarts(text)
 		docs[i] = doc{text, schema, n}
 	}
+	// small-scope documents (every third) and the constant-site matrices under every limit around their size
+	for i, k := range SmallScopeLight() {
+		if i%3 == 0 {
+			_, n := TokenStarts(k.Query)
+			docs = append(docs, doc{k.Query, false, n})
+		}
+	}
+	for _, t := range ConstSites() {
+		_, n := TokenStarts(t)
+		docs = append(docs, doc{t, true, n})
+	}
+	nDocs = len(docs)
 	var total int64
 	c.Pool.ParFor(nDocs, func(w, i int) {
 		d := docs[i]
